@@ -33,7 +33,7 @@ def gen_world(rng, i, tier):
                 m = None
         if m:
             w["mutation"] = m
-    if gen.name_of(w["read"]) and w["nodes"] and w["read"].get("rel") and rng.chance(0.5):
+    if gen.name_of(w["read"]) and w["nodes"] and w["read"].get("rel") and not w["read"].get("dotdot") and rng.chance(0.5):
         # relative names: the application changes its working directory between the two reads; the same names
         # then lead to another tree
         w["mutation"] = {"kind": "chdir", "drop": rng.pick([None, rng.randrange(100)])}
